@@ -1,0 +1,165 @@
+// Verification hooks (compiled only with `--cfg resvg_verif`). Add-only; no behaviour change.
+
+//! Dumps and traces of the intermediate SVG tree used by the external verification harness.
+
+use std::cell::RefCell;
+
+use super::{AId, Attribute, Document, EId, NodeKind, SvgNode};
+
+thread_local! {
+    static TRACE: RefCell<Option<Vec<String>>> = const { RefCell::new(None) };
+}
+
+/// Starts recording trace lines on this thread.
+pub fn trace_start() {
+    TRACE.with(|t| *t.borrow_mut() = Some(Vec::new()));
+}
+
+/// Stops recording and returns the recorded lines.
+pub fn trace_take() -> Vec<String> {
+    TRACE.with(|t| t.borrow_mut().take().unwrap_or_default())
+}
+
+pub(crate) fn enabled() -> bool {
+    TRACE.with(|t| t.borrow().is_some())
+}
+
+pub(crate) fn log<F: FnOnce() -> String>(f: F) {
+    TRACE.with(|t| {
+        if let Some(v) = t.borrow_mut().as_mut() {
+            v.push(f());
+        }
+    });
+}
+
+/// Hex encoding (values may contain spaces and any character).
+pub fn hex(s: &str) -> String {
+    if s.is_empty() {
+        return "-".to_string();
+    }
+    s.bytes().map(|b| format!("{:02x}", b)).collect()
+}
+
+pub(crate) fn fmt_attrs(attrs: &[Attribute]) -> String {
+    let v: Vec<String> = attrs
+        .iter()
+        .map(|a| format!("{}={}:{}", a.name.to_str(), hex(&a.value), a.important as u8))
+        .collect();
+    format!("[{}]", v.join(","))
+}
+
+/// Truth tables of the attribute / element classification predicates.
+pub fn tables() -> Vec<String> {
+    let mut out = Vec::new();
+    for name in ALL_ATTR_CANDIDATES() {
+        if let Some(aid) = AId::from_str(&name) {
+            out.push(format!(
+                "attr {} pres={} inh={} allows={}",
+                name,
+                aid.is_presentation() as u8,
+                aid.is_inheritable() as u8,
+                aid.allows_inherit_value() as u8
+            ));
+        }
+    }
+    for name in ALL_ELEM_CANDIDATES() {
+        if let Some(eid) = EId::from_str(&name) {
+            out.push(format!(
+                "elem {} graphic={} gradient={} paint_server={}",
+                name,
+                eid.is_graphic() as u8,
+                eid.is_gradient() as u8,
+                eid.is_paint_server() as u8
+            ));
+        }
+    }
+    out
+}
+
+thread_local! {
+    static CANDIDATES: RefCell<(Vec<String>, Vec<String>)> = const { RefCell::new((Vec::new(), Vec::new())) };
+}
+
+/// The harness supplies the names to classify (so that unknown names are probed too).
+pub fn set_candidates(attrs: Vec<String>, elems: Vec<String>) {
+    CANDIDATES.with(|c| *c.borrow_mut() = (attrs, elems));
+}
+
+#[allow(non_snake_case)]
+fn ALL_ATTR_CANDIDATES() -> Vec<String> {
+    CANDIDATES.with(|c| c.borrow().0.clone())
+}
+
+#[allow(non_snake_case)]
+fn ALL_ELEM_CANDIDATES() -> Vec<String> {
+    CANDIDATES.with(|c| c.borrow().1.clone())
+}
+
+/// `AId::from_str` / `EId::from_str` as booleans.
+pub fn knows_attr(name: &str) -> bool {
+    AId::from_str(name).is_some()
+}
+
+/// See `knows_attr`.
+pub fn knows_elem(name: &str) -> bool {
+    EId::from_str(name).is_some()
+}
+
+fn dump_node(node: SvgNode, depth: usize, out: &mut Vec<String>) {
+    match node.d.kind {
+        NodeKind::Root => {}
+        NodeKind::Element { tag_name, .. } => {
+            out.push(format!("E {} {} {}", depth, tag_name.to_str(), fmt_attrs(node.attributes())));
+        }
+        NodeKind::Text(ref text) => {
+            out.push(format!("T {} {}", depth, hex(text)));
+        }
+    }
+    for c in node.children() {
+        dump_node(c, depth + 1, out);
+    }
+}
+
+/// Parses `text` into the intermediate SVG tree and dumps it, one node per line, pre-order.
+pub fn dump_svgtree(text: &str, stylesheet: Option<&str>) -> Result<Vec<String>, String> {
+    let xml = roxmltree::Document::parse_with_options(
+        text,
+        roxmltree::ParsingOptions {
+            allow_dtd: true,
+            ..Default::default()
+        },
+    )
+    .map_err(|e| format!("xml:{}", e))?;
+    let doc = Document::parse_tree(&xml, stylesheet).map_err(|e| format!("tree:{}", e))?;
+    let mut out = Vec::new();
+    dump_node(doc.root(), 0, &mut out);
+    let mut links: Vec<String> = doc
+        .links
+        .iter()
+        .map(|(k, v)| format!("L {} {}", hex(k), v.get_usize()))
+        .collect();
+    links.sort();
+    out.extend(links);
+    Ok(out)
+}
+
+/// Drives `HrefIter` from the element with the given id for at most `max_steps` items.
+/// Returns the ids of the yielded elements and whether the iterator ended by itself.
+pub fn href_chain(text: &str, id: &str, max_steps: usize) -> Result<(Vec<String>, bool), String> {
+    let xml = roxmltree::Document::parse(text).map_err(|e| format!("xml:{}", e))?;
+    let doc = Document::parse_tree(&xml, None).map_err(|e| format!("tree:{}", e))?;
+    let node = doc.element_by_id(id).ok_or_else(|| "no-such-id".to_string())?;
+    let mut ids = Vec::new();
+    let mut it = node.href_iter();
+    let mut ended = false;
+    for _ in 0..max_steps {
+        match it.next() {
+            Some(n) => ids.push(n.element_id().to_string()),
+            None => {
+                ended = true;
+                break;
+            }
+        }
+    }
+    Ok((ids, ended))
+}
